@@ -108,7 +108,7 @@ func init() {
 		spec := &mc.Spec{
 			Level: "exploration",
 			Rule: "family 0: every traced path syscall × pointer kind for each path argument (NULL, unmapped, kernel half, odd, short string, 4095/4096/4097/8192 bytes without NUL, string ending exactly at / crossing into a PROT_NONE page) × dirfd encoding × {soft-ban-all, allow-all} policy, one operation per run; " +
-				"family 1: syscall numbers unknown / negative / with the x32 bit / above 2^32, and unreadable or short open_how, every declared open_how size around the field boundaries, open flag words with both access-mode bits / all bits / garbage above bit 31; family 2: a fork+thread program where the main process, the child or the thread is SIGKILLed at the k-th tracer step (every Debug call index); family 3: symbolic-link shapes in the work directory (self loop, 2- and 3-cycles, a cycle entered through a directory link, chains of 39/40/41/64 links, '.'-link nesting, a 4000-byte target) × path syscalls (following, non-following, two-path, exec) × policy, the tracer running in a helper process with a 64 MiB stack cap so that its death is observed; family 4: pathname pointers whose VALUE lies in the tracing process's own heap (freed span, live object, one past it, unused arena), stack or data segment × 5 path-call shapes × policy, with a complete garbage collection placed (verif point) inside every read of tracee memory, while the request holds that value. " +
+				"family 1: syscall numbers unknown / negative / with the x32 bit / above 2^32, every number 320…480 (the end of the library's name table, the first numbers without a name), and unreadable or short open_how, every declared open_how size around the field boundaries, open flag words with both access-mode bits / all bits / garbage above bit 31; family 2: a fork+thread program where the main process, the child or the thread is SIGKILLed at the k-th tracer step (every Debug call index); family 3: symbolic-link shapes in the work directory (self loop, 2- and 3-cycles, a cycle entered through a directory link, chains of 39/40/41/64 links, '.'-link nesting, a 4000-byte target) × path syscalls (following, non-following, two-path, exec) × policy, the tracer running in a helper process with a 64 MiB stack cap so that its death is observed; family 4: pathname pointers whose VALUE lies in the tracing process's own heap (freed span, live object, one past it, unused arena), stack or data segment × 5 path-call shapes × policy, with a complete garbage collection placed (verif point) inside every read of tracee memory, while the request holds that value. " +
 				"Oracle: the result is a verdict about the program, never Runner Error, and the run returns within the horizon. distinct = (case, observed status)",
 			Bound:       map[string]any{"pointer_kinds": ptrs, "dirfds": dirfds, "syscalls": len(c15syscalls)},
 			Assumptions: []string{"kill instants are exhaustive at tracer-step granularity (each Debug call of the tracer loop), not at instruction granularity"},
@@ -168,6 +168,11 @@ func init() {
 				// open flag words: both access-mode bits set (legal: descriptor for ioctl only), every bit set, garbage above bit 31
 				for _, fl := range []string{"3", "0x80003", "0x200003", "0x7fffffff", "0xffffffff", "0xdeadbeef00000003", "-1"} {
 					cases = append(cases, "X 2 $0 "+fl+" 0", "X 257 -100 $0 "+fl+" 0", "X 437 -100 $0 @how"+fl+"/0/0 24")
+				}
+				// every number around the end of the syscall-name table of the library (the last names, the first numbers
+				// without a name, the hole below 424): a number without a name is the program's business, not the runner's
+				for nr := 320; nr <= 480; nr++ {
+					cases = append(cases, fmt.Sprintf("X %d 0 0 0 0", nr))
 				}
 				line := cases[x.Choose(len(cases), "case")]
 				allow := x.Bool("allow-all")
